@@ -17,8 +17,14 @@ PolyCases == {<< <<r>> >> : r \in R3 \cup R4 \cup R5} \cup {<< <<Close(r)>> >> :
              \cup {<< <<p[1], <<p[2][1], p[2][2]>>>> >> : p \in Pairs}       \* a ring of two vertices is ignored
 AggCases == [kind : {"agg"}, recv : {"MultiPoint", "LineString", "MultiLineString", "Polygon"},
              vs : {r \in R4 : Hash(r, 1) % MA = 0}, polys : {<< <<r>> >> : r \in {x \in R4 : Hash(x, 1) % (MA + 4) = 1}}]
+(* exactly one vertex of the receiver is outside (or on the edge), at every position of the vertex list *)
+InsidePts == << <<4, 4>>, <<6, 4>>, <<5, 6>> >>
+InsertAt(s, k, x) == SubSeq(s, 1, k - 1) \o <<x>> \o SubSeq(s, k, Len(s))
+AggOne == [kind : {"agg"}, recv : {"MultiPoint", "LineString", "MultiLineString", "Polygon"},
+           vs : {InsertAt(InsidePts, k, x) : k \in 1..4, x \in {<<10, 5>>, <<8, 5>>, <<5, 5>>}},
+           polys : {<< << << <<2, 2>>, <<8, 2>>, <<8, 8>>, <<2, 8>> >> >> >>, << << << <<2, 2>>, <<8, 2>>, <<8, 8>>, <<2, 8>>, <<2, 2>> >> >> >>}]
 GenInit == /\ polys = <<>>
-           /\ c \in [kind : {"poly"}, polys : PolyCases, n : {GridN}] \cup AggCases
+           /\ c \in [kind : {"poly"}, polys : PolyCases, n : {GridN}] \cup AggCases \cup AggOne
            /\ PrintT(ToJson(c))
 GenSpec == GenInit /\ [][UNCHANGED <<polys, c>>]_<<polys, c>>
 =============================================================================
